@@ -51,13 +51,18 @@ MCQuickAll == MCQuick \cup MCQuickFlap
 ASSUME QuickStatic == LevelRuleStatic /\ FlapNoBoundary
 
 ALL == <<T, T, T>>
+FlapS == { <<25, 50, 2>>, <<30, 45, 3>> }
+(* Without flapping the ring contents beyond previous/current do not influence behaviour but   *)
+(* multiply the state count (4^H * H ring states), so long histories go with small level sets. *)
 MCThorough ==
     FamLevels
-    \cup FamEmit({C, WC, ALL}, Sco3, {2, 3, 4})
-    \cup FamBatch({C, WC}, { NoRst, <<F, F, T>> }, Sco3)
+    \cup FamEmit({C, WC}, Sco3, {2, 3}) \cup FamEmit({ALL}, Sco3, {2})
+    \cup FamBatch({C}, { NoRst, <<F, F, T>> }, Sco3) \cup FamBatch({WC}, { NoRst }, Sco3)
     \cup FamBatch({ALL}, { NoRst }, { <<F, 0>> })
 
 MCThoroughFlap ==
-    FamFlap({C, WC, ALL}, Sco3, Flap3, {F}) \cup FamFlap({C, WC}, Sco3, Flap3, {T})
+    FamFlap({C}, Sco3, Flap3, BOOLEAN)
+    \cup FamFlap({WC}, Sco3, FlapS, {F}) \cup FamFlap({ALL}, Sco2, { <<25, 50, 2>> }, {F})
+    \cup FamFlap({WC}, Sco2, { <<25, 50, 2>> }, {T})
 MCThoroughAll == MCThorough \cup MCThoroughFlap
 =============================================================================
